@@ -490,6 +490,13 @@ def wire_op(c):
     if k == "Custom":
         return {"op": "Extension", "extension": c["ext"], "name": "op", "signature": fn(c["ins"], c["outs"]),
                 "description": c["desc"], "args": [wire_arg(a) for a in c["args"]]}
+    if k == "ExtOp":
+        # an operation backed by a definition is written as hugr-core's ExtensionOp::make_opaque writes it: extension
+        # and name of the definition, the cached signature, the type arguments and the DEFINITION's description
+        # (a definition held by an extension names that extension among its requirements, cf. C10)
+        return {"op": "Extension", "extension": "gen.ext", "name": "gop",
+                "signature": fn(c["ins"], c["outs"], ["gen.ext"]),
+                "description": c["desc"], "args": [wire_arg(a) for a in c["args"]]}
     return None
 
 
@@ -556,6 +563,10 @@ def check_op(ctx, c, stratum="op"):
             if not isinstance(y, ops.Custom):
                 ctx.disc(None, "extension-op-not-opaque", k, "Custom", repr(y), stratum=stratum, case=c)
                 continue
+            if k == "ExtOp" and y.description != c["desc"]:
+                # (independent of to_custom_op: the description an extension operation has is its definition's)
+                ctx.disc(None, "extension-op-attribute", [k, "description", "definition"], c["desc"], y.description,
+                         stratum=stratum, case=c)
             for attr in ("extension", "op_name", "signature", "args", "description"):
                 if getattr(y, attr) != getattr(ref, attr):
                     ctx.disc(None, "extension-op-attribute", [k, attr], repr(getattr(ref, attr)),
